@@ -309,12 +309,25 @@ func l3DecoderCase(c *Ctx, id string, st *trie.SlimTrie, tc *TrieCase, spec *Enc
 	if tc == nil {
 		return
 	}
-	for _, q := range genQueries(c.R.Fork(), tc.Keys, len(tc.Keys)+24) {
+	qr := c.R.Fork()
+	qs := genQueries(qr, tc.Keys, len(tc.Keys)+24)
+	if len(qs) > 72 {
+		// a sample: the mutated queries (at the end) and a random subset of the keys
+		keep := append([]string{}, qs[len(qs)-24:]...)
+		for i := 0; i < 48; i++ {
+			keep = append(keep, qs[qr.Intn(len(qs)-24)])
+		}
+		qs = keep
+	}
+	for _, q := range qs {
 		fmt.Fprintf(cw, "MQ %s\n", hxs(q))
 		s, p := protect(func() string {
 			v, f := st.Get(q)
 			l, e, r := st.VerifSearchID(q)
-			return fmt.Sprintf("%d %s S %d %d %d", st.GetID(q), foundStr(spec, v, f), l, e, r)
+			lv, ev, rv := st.Search(q)
+			gv, gf := st.RangeGet(q)
+			return fmt.Sprintf("%d %s S %d %d %d V %s %s %s R %s", st.GetID(q), foundStr(spec, v, f), l, e, r,
+				ovStr(spec, lv), ovStr(spec, ev), ovStr(spec, rv), foundStr(spec, gv, gf))
 		})
 		if p != "" {
 			s = "PANIC"
